@@ -3,6 +3,7 @@
 //!   engine_harness gen <profile> <outdir>                            generate programs, run them, oracle, emit ops/impl
 //!   engine_harness replay <progfile> <outdir>                        run one program file (corpus / replay)
 mod exec;
+mod conc;
 mod gen;
 mod mutate;
 mod oracle;
@@ -16,6 +17,8 @@ fn main() {
         Some("gen") => gen::main(&args[2..]),
         Some("replay") => gen::replay(&args[2..]),
         Some("mutate") => mutate::main(&args[2..]),
+        Some("conc") => conc::main(&args[2..]),
+        Some("concrun") => conc::run(&args[2..]),
         _ => {
             eprintln!("usage: engine_harness exec|gen|replay ...");
             std::process::exit(2);
